@@ -48,6 +48,10 @@ def validate(sessions, workdir, nshards=None, timeout=3600, module="Trace_Solver
         rec["rel"] = s.get("rel", {"kind": "none"})
         obs.check_ints(rec)
         shards[i % nshards].append(rec)
+    # big sessions (thousands of states) get shards of their own
+    bigs = [r for sh in shards for r in sh if r["descs"][0]["n"] > 400]
+    if bigs:
+        shards = [[r for r in sh if r["descs"][0]["n"] <= 400] for sh in shards] + [[b] for b in bigs]
     jobs = []
     for i, sh in enumerate(shards):
         if not sh:
@@ -55,7 +59,8 @@ def validate(sessions, workdir, nshards=None, timeout=3600, module="Trace_Solver
         path = os.path.join(workdir, "trace_%d.json" % i)
         with open(path, "w") as f:
             json.dump(sh, f)
-        jobs.append(dict(module=module, env={"TRACE_FILE": path}, workers=1, timeout=timeout))
+        jobs.append(dict(module=module, env={"TRACE_FILE": path}, workers=1, timeout=timeout,
+                         heap="6g" if any(r["descs"][0]["n"] > 400 for r in sh) else "3g", stack="512m"))
     t0 = time.time()
     results = tlc.run_parallel(jobs, nproc=16)
     verdicts = {}
